@@ -1091,7 +1091,9 @@ func ruleConvOrder(c *Ctx) {
 	// the steps may sit in a helper shared by the chord and the rest clause: look at the whole region of Convert
 	var mods, convs, scales []rcall
 	region := c.regionCalls(fn, func(f *ssa.Function) bool { return !f.Object().Exported() && f.Name() != "changeScale" })
-	tr := &tracer{c: c, stop: func(f *ssa.Function) bool { return f.Name() == "changeScale" || (f.Object() != nil && f.Object().Exported()) }}
+	tr := &tracer{c: c, stop: func(f *ssa.Function) bool {
+		return f.Name() == "changeScale" || (f.Object() != nil && f.Object().Exported())
+	}}
 	for _, rc := range region {
 		cc := rc.call.Common()
 		switch {
@@ -1312,7 +1314,6 @@ func callsInBlocks(b *ssa.BasicBlock) []ssa.CallInstruction {
 	return out
 }
 
-
 // checkDigitClass folds LexScanner.scanDigits with the reader's Peek() bound to probe runes: it must report a number
 // exactly for ASCII '0'..'9'; every predicate it hands to the reader for continuing the run must be that class too.
 func (c *Ctx) checkDigitClass() {
@@ -1373,7 +1374,6 @@ func (c *Ctx) checkDigitClass() {
 	}
 	c.ok(key, c.pos(fn.Pos()), fname(fn), fmt.Sprintf("a number starts and continues exactly on ASCII 0-9 (%d probe runes incl. other Unicode digits, %d run predicate(s))", len(probes), len(preds)))
 }
-
 
 // returnsErrorOf: every return of the call's function yields the call's own error result.
 func returnsErrorOf(call *ssa.Call) bool {
